@@ -47,6 +47,13 @@ class SymDict(object):
         if kw:
             self.update(kw)
 
+    @classmethod
+    def fromkeys(cls, keys, value=None):
+        d = cls()
+        for k in keys:
+            d[k] = value
+        return d
+
     def _find(self, key):
         for i in range(len(self._k)):
             if _same(self._k[i], key):
